@@ -9,7 +9,7 @@ from vf.ref import coerce as C
 from vf import gqlfront
 
 META = {
-    "bounds": "schema X (vf/world.py) in 8 engine configurations (default/explicit resolvers, non-null layout, type resolvers, sequential coercion); 17 document templates, selection depth <= 4, lists of length 0..2, "
+    "bounds": "schema X (vf/world.py) in 9 engine configurations (default/explicit resolvers, non-null layout, type resolvers, sequential coercion); 17 document templates, selection depth <= 4, lists of length 0..2, "
               "<= 3 fragments; leaves: unbounded int / Optional[int] / Optional[bool] / opaque str (len <= 2)",
     "outside": "documents outside the template catalogue; list length > 2; Float leaves symbolic (C10); message wording",
     "explanation": "Oracle: vf/ref/execute.py (CollectFields/ExecuteSelectionSet/CompleteValue written from the spec text) run on the same symbolic values.",
@@ -30,7 +30,9 @@ _R("Query.mid", schema_name="c01_ov", parent_concurrently=False)(world.universal
 _R("Mid.n", schema_name="c01_ov", parent_concurrently=False)(world.universal)
 _R("Query.nn", schema_name="c01_ov", parent_concurrently=False)(world.universal)
 ENGINES["ov"] = world.make_engine("c01_ov", 0, "univ")
-MODELS = {"univ": world.model(0), "plain": world.model(0), "univ_nn": world.model(7), "tres": world.model(0), "plain_tres": world.model(0), "seq": world.model(0), "plain_seq": world.model(0), "ov": world.model(0)}
+# all three levels of type resolution present: field-level (Query.u), type-level (Node) and a custom engine-wide default (everything else)
+ENGINES["cdt"] = world.make_engine("c01_cdt", 0, "univ", typeres=True, custom_default_type_resolver=world._tr_default)
+MODELS = {"univ": world.model(0), "plain": world.model(0), "univ_nn": world.model(7), "tres": world.model(0), "plain_tres": world.model(0), "seq": world.model(0), "plain_seq": world.model(0), "ov": world.model(0), "cdt": world.model(0)}
 
 TEMPLATES = {
     "T01": "{ n nn }",
@@ -108,6 +110,7 @@ def mkdata(P, tn, tres, keys, mixed=False):
             # three independent namings: the oracle picks the one the position calls for
             d["tr_node"] = tname
             d["tr_field"] = tname
+            d["tr_default"] = tname
             other = "B" if is_a else "A"
             which = P["which"]         # 0: all agree, 1: default naming lies, 2: type-level lies where field-level exists
             if which == 1:
@@ -115,6 +118,10 @@ def mkdata(P, tn, tres, keys, mixed=False):
             if which == 2:
                 d["tr_node"] = other if depth == 0 else tname
                 d["_typename"] = tname
+                return d
+            if which == 3:           # only the custom engine-wide default tells the truth where it is the one in charge
+                d["_typename"] = other
+                d["tr_default"] = tname
                 return d
         return world.wrap(d, tname, tn)
 
@@ -138,12 +145,14 @@ def mkdata(P, tn, tres, keys, mixed=False):
 
 
 def typeof_for(kind):
-    if kind in ("tres", "plain_tres"):
+    if kind in ("tres", "plain_tres", "cdt"):
         def typeof(res, abstract, ptype, fname):
             if (ptype, fname) == ("Query", "u"):
                 return world.read(res, "tr_field")
             if abstract == "Node":
                 return world.read(res, "tr_node")
+            if kind == "cdt":
+                return world.read(res, "tr_default")
             return world.typeof_default(res, abstract, ptype, fname)
         return typeof
     return world.typeof_default
@@ -191,7 +200,7 @@ SHARDS = []
 for t in TEMPLATES:
     kinds = ["univ", "plain"]
     if t in ("T08", "T11", "T14"):
-        kinds = ["univ", "plain", "tres", "plain_tres"]
+        kinds = ["univ", "plain", "tres", "plain_tres", "cdt"]
     if t in ("T15", "T16", "T17"):
         kinds = ["univ", "plain", "seq"]
     if t in ("T03", "T05", "T12"):
@@ -211,11 +220,17 @@ for t in TEMPLATES:
                     SHARDS.append(dict(base, op=op))
             elif t == "T08":
                 for nlen in (0, 1, 2):
-                    if k in ("tres", "plain_tres"):
+                    if k == "cdt":
+                        for which in (0, 3):
+                            SHARDS.append(dict(base, nlen=nlen, which=which))
+                    elif k in ("tres", "plain_tres"):
                         for which in (0, 1, 2):
                             SHARDS.append(dict(base, nlen=nlen, which=which))
                     else:
                         SHARDS.append(dict(base, nlen=nlen))
+            elif k == "cdt":
+                for which in (0, 3):
+                    SHARDS.append(dict(base, which=which))
             elif k in ("tres", "plain_tres"):
                 for which in (0, 1, 2):
                     SHARDS.append(dict(base, which=which))
@@ -230,7 +245,7 @@ for sh_ in SHARDS:
     else:
         _split.append(sh_)
 SHARDS = _split
-QUICK = [i for i, s in enumerate(SHARDS) if (s["eng"] in ("univ",) and s["tn"] == 0) or (s["eng"] == "seq" and s["tmpl"] == "T05") or (s["eng"] in ("plain_seq", "ov") and s["tmpl"] in ("T03", "T02")) or (s["tmpl"] in ("T08", "T14") and s.get("which") == 2 and s.get("nlen", 1) == 1)
+QUICK = [i for i, s in enumerate(SHARDS) if (s["eng"] in ("univ",) and s["tn"] == 0) or (s["eng"] == "seq" and s["tmpl"] == "T05") or (s["eng"] in ("plain_seq", "ov") and s["tmpl"] in ("T03", "T02")) or (s["eng"] == "cdt" and s["tmpl"] == "T11" and s.get("which") == 3) or (s["tmpl"] in ("T08", "T14") and s.get("which") == 2 and s.get("nlen", 1) == 1)
          or (s["tmpl"] in ("T03", "T10", "T12") and s["eng"] == "plain" and s["tn"] == 0)]
 
 
@@ -240,7 +255,7 @@ QUICK = [i for i, s in enumerate(SHARDS) if (s["eng"] in ("univ",) and s["tn"] =
             symbolic=["n: Optional[int] (unbounded)", "m: int (unbounded)", "flag: Optional[bool]", "st: str (all strings)", "v: Optional[int]",
                       "s, i: bool via real variable coercion and the real @skip/@include hooks"],
             selectors=["t1,t2,t3: runtime type of node/u/nodes", "nlen: list length 0..2", "shard: template, engine kind, type-naming way, operation name"],
-            bounds="templates T01-T17 x engines {univ, plain, univ_nn, tres, plain_tres, seq, plain_seq, ov} x 3 type-naming ways",
+            bounds="templates T01-T17 x engines {univ, plain, univ_nn, tres, plain_tres, seq, plain_seq, ov, cdt} x 3 type-naming ways",
             note="real Engine.execute vs reference executor: data incl. key order, error accounting, resolver call log")
 def c01_exec(s: bool, i: bool, t1: bool, t2: bool, t3: bool, n: Optional[int], m: int, flag: Optional[bool], st: str,
              v: Optional[int], nlen: int) -> bool:
@@ -250,7 +265,7 @@ def c01_exec(s: bool, i: bool, t1: bool, t2: bool, t3: bool, n: Optional[int], m
     sh = shard()
     kind = sh["eng"]; tmpl = sh["tmpl"]; tn = sh["tn"]
     P = LazyP({"n": n, "m": m, "flag": flag, "st": st, "v": v, "nlen": nlen, "t1": t1, "t2": t2, "t3": t3, "which": 0}, sh)
-    tres = kind in ("tres", "plain_tres")
+    tres = kind in ("tres", "plain_tres", "cdt")
     data = mkdata(P, tn, tres, ROOT_KEYS[tmpl], mixed=(tmpl in ("T15", "T17")))
     s = sh.get("s", s); i = sh.get("i", i)
     variables = {"s": s, "i": i, "v": v, "w": n}
